@@ -633,26 +633,26 @@ def _nat_stub(params, model):
 
 
 OBLIGATIONS = [
-    Ob("send", sym_send, _g_send, mbox.nat_rg(sym_send), setup=mbox.setup, witnesses=0,
+    Ob("send", sym_send, _g_send, mbox.nat_rg(sym_send), setup=mbox.setup, witnesses=1,
        doc="send from any invariant state (incl. block on full queue + stale number): pushes exactly (n,msg), "
            "n_sent+1, notifies readers, invariant kept, eager capacity respected, closed refuses"),
     Ob("send_explicit", sym_send_explicit, lambda tier: [dict(nsubs=s, cap=c) for s in _subs(tier) for c in _caps(tier)],
-       mbox.nat_rg(sym_send_explicit), setup=mbox.setup, witnesses=0, doc="explicit numbers: rejected iff already read by all; heap order kept"),
+       mbox.nat_rg(sym_send_explicit), setup=mbox.setup, witnesses=1, doc="explicit numbers: rejected iff already read by all; heap order kept"),
     Ob("explicit_deadlock", sym_explicit_deadlock,
        lambda tier: [dict(nsubs=s, cap=c) for s in _subs(tier) for c in _caps(tier)], None, setup=mbox.setup,
        witnesses=0, doc="capacity > displacement => a full queue holds the next needed message"),
-    Ob("read", sym_read, _g_read, mbox.nat_rg(sym_read), setup=mbox.setup, witnesses=0,
+    Ob("read", sym_read, _g_read, mbox.nat_rg(sym_read), setup=mbox.setup, witnesses=1,
        doc="reader sections from any invariant state: yields exactly the queued messages next.. in order with the "
            "sent payloads, advances only its own counter, drops exactly what everybody has read, clears/publishes "
            "demand, owes no wake-up"),
     Ob("close", sym_close, _g_send, mbox.nat_rg(sym_close), setup=mbox.setup, witnesses=0),
     Ob("future", sym_future, lambda tier: [dict(pos=p) for p in range(3)], None, setup=mbox.setup, witnesses=0),
-    Ob("no_deadlock", sym_no_deadlock, _g_dead, mbox.nat_rg(sym_no_deadlock), setup=mbox.setup, witnesses=0,
+    Ob("no_deadlock", sym_no_deadlock, _g_dead, mbox.nat_rg(sym_no_deadlock), setup=mbox.setup, witnesses=1,
        doc="state lemma: no invariant state with all threads blocked on false predicates"),
     Ob("sched_run", sym_sched_run, _g_sched, nat_sched_run, setup=mbox.setup, witnesses=1,
        doc="real Mailbox + real threads under the deterministic scheduler, canonical policies + solver-chosen "
            "deviations: every reader receives exactly the sent sequence, no deadlock, capacity respected"),
-    Ob("divide", sym_divide, _g_divide, mbox.nat_rg(sym_divide), setup=mbox.setup, witnesses=0,
+    Ob("divide", sym_divide, _g_divide, mbox.nat_rg(sym_divide), setup=mbox.setup, witnesses=1,
        doc="divide_outputs: k-th result dict -> k-th message of each output; closed at end; all killed on failure"),
     Ob("twin_read", sym_twin_read, lambda tier: [dict()], None, setup=mbox.setup, expect_cex=True),
     Ob("twin_send", sym_twin_send, lambda tier: [dict()], None, setup=mbox.setup, expect_cex=True),
